@@ -117,6 +117,12 @@ fn trees() -> Vec<(String, CmdSpec)> {
     bench.args.push(ArgSpec::flag("quick", Some('q'), Some("quick")));
     let mut hid = CmdSpec::new("hidsub");
     hid.hide = true;
+    // a hidden subcommand is only hidden where it is listed: its own options and children are not
+    hid.args.push(ArgSpec::flag("dry", Some('d'), Some("dry-run")));
+    let mut dump = CmdSpec::new("dump");
+    dump.args.push(ArgSpec::flag("z", Some('z'), Some("zap")));
+    hid.subs.push(dump);
+    hid.subs.push(CmdSpec::new("doctor"));
     let mut install = CmdSpec::new("install");
     install.aliases.push("i".into());
     root.subs = vec![build, bench, hid, install];
@@ -156,6 +162,9 @@ fn prefixes(spec: &CmdSpec) -> Vec<(Vec<&'static str>, Vec<&'static str>)> {
             (vec!["bld"], vec!["build"]),
             (vec!["build", "deep"], vec!["build", "deep"]),
             (vec!["--opt=one", "build", "-r", "deep"], vec!["build", "deep"]),
+            (vec!["hidsub"], vec!["hidsub"]),
+            (vec!["hidsub", "-d"], vec!["hidsub"]),
+            (vec!["hidsub", "dump"], vec!["hidsub", "dump"]),
         ]);
     }
     v
